@@ -17,7 +17,7 @@ mutual
       ∀ t : HTree, ∀ x ∈ handles (replaceBelow h g t), x ∈ handles t ∨ x ∈ E
     | .node h' v ks => by
       intro x hx
-      rw [replaceBelow, handles_node, List.mem_cons] at hx
+      rw [replaceBelow, fi_handles_node, List.mem_cons] at hx
       rcases hx with hx | hx
       · exact Or.inl (by simp [hx])
       · rcases handlesList_replaceKids_sub h g E hg ks x hx with h1 | h1
@@ -37,7 +37,7 @@ mutual
           · exact Or.inl (by simp [h1])
           · exact Or.inr h1
         · exact Or.inl (by simp [hx])
-      · rw [handlesList_cons, List.mem_append] at hx
+      · rw [fi_handlesList_cons, List.mem_append] at hx
         rcases hx with hx | hx
         · rcases handles_replaceBelow_sub h g E hg k x hx with h1 | h1
           · exact Or.inl (by simp [h1])
@@ -56,7 +56,7 @@ mutual
       rw [mapAt] at hx
       split at hx
       · exact hg _ x hx
-      · rw [handles_node, List.mem_cons] at hx
+      · rw [fi_handles_node, List.mem_cons] at hx
         rcases hx with hx | hx
         · exact Or.inl (by simp [hx])
         · rcases handlesList_mapAtList_sub h g E hg ks x hx with h1 | h1
@@ -68,7 +68,7 @@ mutual
     | [] => by intro x hx; simp [mapAtList] at hx
     | k :: ks => by
       intro x hx
-      rw [mapAtList, handlesList_cons, List.mem_append] at hx
+      rw [mapAtList, fi_handlesList_cons, List.mem_append] at hx
       rcases hx with hx | hx
       · rcases handles_mapAt_sub h g E hg k x hx with h1 | h1
         · exact Or.inl (by simp [h1])
@@ -91,8 +91,8 @@ mutual
     | [], s => by intro hf; simp [findList?] at hf
     | k :: ks, s => by
       intro hf x hx
-      rw [findList?_cons] at hf
-      rw [handlesList_cons, List.mem_append]
+      rw [fi_findList?_cons] at hf
+      rw [fi_handlesList_cons, List.mem_append]
       cases hk : find? h k with
       | some t' =>
         rw [hk] at hf; simp only [Option.some_or, Option.some.injEq] at hf
@@ -110,7 +110,7 @@ theorem handlesList_map_replaceBelow_sub (h : Nat) (g : HTree → List HTree) (E
   | nil => intro x hx; simp at hx
   | cons k ks ih =>
     intro x hx
-    rw [List.map_cons, handlesList_cons, List.mem_append] at hx
+    rw [List.map_cons, fi_handlesList_cons, List.mem_append] at hx
     rcases hx with hx | hx
     · rcases handles_replaceBelow_sub h g E hg k x hx with h1 | h1
       · exact Or.inl (by simp [h1])
@@ -127,11 +127,11 @@ theorem handlesList_filter_sub (p : HTree → Bool) (ks : List HTree) :
     intro x hx
     rw [List.filter_cons] at hx
     split at hx
-    · rw [handlesList_cons, List.mem_append] at hx ⊢
+    · rw [fi_handlesList_cons, List.mem_append] at hx ⊢
       rcases hx with hx | hx
       · exact Or.inl hx
       · exact Or.inr (ih x hx)
-    · rw [handlesList_cons, List.mem_append]; exact Or.inr (ih x hx)
+    · rw [fi_handlesList_cons, List.mem_append]; exact Or.inr (ih x hx)
 
 mutual
   theorem find?_ne_none_of_mem (h : Nat) : ∀ t : HTree, h ∈ handles t → find? h t ≠ none
@@ -141,7 +141,7 @@ mutual
       split at hn
       · cases hn
       · rename_i hne
-        rw [handles_node, List.mem_cons] at hm
+        rw [fi_handles_node, List.mem_cons] at hm
         rcases hm with hm | hm
         · exact hne hm.symm
         · exact findList?_ne_none_of_mem h ks hm hn
@@ -149,12 +149,12 @@ mutual
     | [] => by intro hm; simp at hm
     | k :: ks => by
       intro hm hn
-      rw [findList?_cons] at hn
+      rw [fi_findList?_cons] at hn
       cases hk : find? h k with
       | some _ => rw [hk] at hn; simp at hn
       | none =>
         rw [hk] at hn; simp only [Option.none_or] at hn
-        rw [handlesList_cons, List.mem_append] at hm
+        rw [fi_handlesList_cons, List.mem_append] at hm
         rcases hm with hm | hm
         · exact find?_ne_none_of_mem h k hm hk
         · exact findList?_ne_none_of_mem h ks hm hn
@@ -249,7 +249,7 @@ theorem le_detachRaw (f : Forest) (h : Nat) : Le f (f.detachRaw h) := by
       refine ⟨this.1.next, ?_⟩
       intro x hx
       unfold addRoot allHandles at hx
-      simp only [fi_handlesList_append, handlesList_cons, handlesList_nil, List.append_nil, List.mem_append] at hx
+      simp only [fi_handlesList_append, fi_handlesList_cons, fi_handlesList_nil, List.append_nil, List.mem_append] at hx
       rcases hx with hx | hx
       · exact this.1.old x hx
       · exact Or.inl (this.2 t rfl x hx)
@@ -299,13 +299,13 @@ theorem le_place {f0 f : Forest} (hle : Le f0 f) (t : HTree)
     intro x hx
     exact handlesList_map_replaceBelow_sub ref _ (handles t) (by
       intro k x hx
-      simp only [handlesList_cons, handlesList_nil, List.append_nil, List.mem_append] at hx
+      simp only [fi_handlesList_cons, fi_handlesList_nil, List.append_nil, List.mem_append] at hx
       exact hx) f.roots x hx
   · apply fin _ (by rfl)
     intro x hx
     exact handlesList_map_replaceBelow_sub ref _ (handles t) (by
       intro k x hx
-      simp only [handlesList_cons, handlesList_nil, List.append_nil, List.mem_append] at hx
+      simp only [fi_handlesList_cons, fi_handlesList_nil, List.append_nil, List.mem_append] at hx
       exact hx.symm) f.roots x hx
   · apply fin _ (by rfl)
     intro x hx
@@ -316,7 +316,7 @@ theorem le_place {f0 f : Forest} (hle : Le f0 f) (t : HTree)
       intro k x hx
       rw [handles_setKids, List.mem_cons, fi_handlesList_append, List.mem_append] at hx
       rw [fi_handles_eq k, List.mem_cons]
-      simp only [handlesList_cons, handlesList_nil, List.append_nil] at hx
+      simp only [fi_handlesList_cons, fi_handlesList_nil, List.append_nil] at hx
       rcases hx with hx | hx | hx
       · exact Or.inl (Or.inl hx)
       · exact Or.inl (Or.inr hx)
@@ -328,7 +328,7 @@ theorem le_place {f0 f : Forest} (hle : Le f0 f) (t : HTree)
     rw [← mapAtList_eq_map] at hx
     exact handlesList_mapAtList_sub ref _ (handles t) (by
       intro k x hx
-      rw [handles_setKids, List.mem_cons, handlesList_cons, List.mem_append] at hx
+      rw [handles_setKids, List.mem_cons, fi_handlesList_cons, List.mem_append] at hx
       rw [fi_handles_eq k, List.mem_cons]
       rcases hx with hx | hx | hx
       · exact Or.inl (Or.inl hx)
